@@ -208,14 +208,19 @@ def scenario(res, flavour, ext, tmp, fault, case):
                 res.violation(f"failed-save-marked-saved:{case['what']}", f"after a failed save ({case['desc']}) the state is marked saved although the file is stale", case)
             if not schedule_alive(pg):
                 res.violation(f"schedule-stopped:{flavour}", f"after a failed save ({case['desc']}) no further save attempt is armed ({flavour})", case)
-        pg.eng.feed("61;255;0;0;17;2.2")
-        pg.tick()
-        if failed:
-            after = load_file(path)
-            if after != cur(pg):
-                res.violation(f"next-tick-does-not-heal:{flavour}", f"the fault-free tick after a failed save ({case['desc']}) did not persist the then-current state", case)
-            res.count("healing_ticks_judged")
-        pg.eng.feed("62;255;0;0;17;2.2")
+        quiet = case.get("quiet", False)     # quiet: no further message arrives after the failed save
+        if not quiet:
+            pg.eng.feed("61;255;0;0;17;2.2")
+        if not (quiet and case.get("stop_directly")):
+            pg.tick()
+            if failed:
+                after = load_file(path)
+                if after != cur(pg):
+                    res.violation(f"next-tick-does-not-heal:{flavour}" + (":quiet" if quiet else ""),
+                                  f"the fault-free tick after a failed save ({case['desc']}) did not persist the then-current state" + (" (no message arrived in between)" if quiet else ""), case)
+                res.count("healing_ticks_judged")
+        if not quiet:
+            pg.eng.feed("62;255;0;0;17;2.2")
         want = cur(pg)
         try:
             pg.stop()
@@ -226,7 +231,7 @@ def scenario(res, flavour, ext, tmp, fault, case):
                 res.notes.append(f"stop raised {exc!r} without a failed save")
             return info
         if failed and load_file(path) != want:
-            res.violation(f"stop-skips-final-save:{flavour}", f"stop() after a failed scheduled save ({case['desc']}) did not persist the final state", case)
+            res.violation(f"stop-skips-final-save:{flavour}" + (":quiet" if quiet else ""), f"stop() after a failed scheduled save ({case['desc']}) did not persist the final state", case)
         res.count("stops_judged")
         return info
     finally:
@@ -271,9 +276,14 @@ def run_oserror(job, res):
                     finally:
                         sh.uninstall()
                     return {"fired": lambda: sh.fired, "failed": len(SAVE_EXC) > n0}
-                res.evals += 1
-                scenario(res, flavour, ext, tmp, fault, case)
-                res.nontrivial((flavour, ext, "oserror", k, err))
+                for variant in ({}, {"quiet": True}, {"quiet": True, "stop_directly": True}):
+                    if variant and err != errno.EIO:
+                        continue
+                    res.evals += 1
+                    scenario(res, flavour, ext, tmp, fault, dict(case, **variant))
+                    res.nontrivial((flavour, ext, "oserror", k, err, tuple(variant)))
+                    if variant:
+                        res.count("quiet_variants")
         res.sample({"kind": "oserror", "flavour": flavour, "ext": ext, "ops": [o[0] for o in ops if o[0] != "write"], "points": len(set(pts))})
     finally:
         shutil.rmtree(tmp, ignore_errors=True)
@@ -322,6 +332,9 @@ def run_concurrent(job, res):
             res.evals += 1
             info = scenario(res, flavour, ext, tmp, fault, case)
             res.nontrivial((flavour, ext, mut, k))
+            if k % 5 == 0:
+                scenario(res, flavour, ext, tmp, fault, dict(case, quiet=True, stop_directly=(k % 10 == 0)))
+                res.count("quiet_variants")
         res.sample({"kind": "concurrent", "flavour": flavour, "ext": ext, "mutation": mut, "line": line, "write_points": npoints})
     finally:
         shutil.rmtree(tmp, ignore_errors=True)
@@ -422,11 +435,13 @@ def finish(agg, tier):
                 "from every non-write file operation and every 7th write of the scheduled save; (ii) at every write point of the JSON "
                 "encoder / every write and Sensor.__getstate__ of the pickle save, a concurrent message that adds a node, a child, a "
                 "value, or updates a value. After a save that failed: previous file still loads completely, state not marked saved, a "
-                "further attempt is armed, the next clean tick persists the current state, stop() works and saves. A free-running "
+                "further attempt is armed, the next clean tick persists the current state, stop() works and saves - also in the 'quiet' "
+                "variants where no further message arrives after the failed save (next tick / direct stop must still persist). A free-running "
                 "stress round (real timer thread, ms period) cross-checks that concurrent failures occur for real. distinct = "
                 "(flavour, format, fault kind, position, mutation).",
         "floors": [("faulty_ticks", c.get("faulty_ticks", 0), 1500), ("failed_saves", c.get("failed_saves", 0), 300),
-                   ("healing_ticks_judged", c.get("healing_ticks_judged", 0), 300), ("stops_judged", c.get("stops_judged", 0), 1000)],
+                   ("healing_ticks_judged", c.get("healing_ticks_judged", 0), 300), ("stops_judged", c.get("stops_judged", 0), 1000),
+                   ("quiet_variants", c.get("quiet_variants", 0), 200)],
         "assumptions": ["concurrent mutation is produced synchronously at write points: a deterministic stand-in for the poll thread "
                         "running while the timer thread (or executor) serialises",
                         "a save that completes while a concurrent update slipped in is outside the statement (not judged)"],
